@@ -602,6 +602,29 @@ func init() {
 		"time.Now":   timeNow,
 		"time.Since": timeSince,
 	}
+	// the other widths of the sync/atomic functions behave alike
+	atomicAdd := func(e *Exec, fn *ssa.Function, a []Value) (Value, *GoPanic) {
+		p := a[0].(*Ptr)
+		nv := e.tb.Add(e.atomicLoad(p).(*Term), a[1].(*Term))
+		e.atomicStore(p, nv)
+		return nv, nil
+	}
+	atomicSwap := func(e *Exec, fn *ssa.Function, a []Value) (Value, *GoPanic) {
+		p := a[0].(*Ptr)
+		old := e.atomicLoad(p)
+		e.atomicStore(p, a[1])
+		return old, nil
+	}
+	for _, w := range []string{"Int32", "Int64", "Uint32", "Uint64", "Uintptr"} {
+		stubs["sync/atomic.Add"+w] = atomicAdd
+		stubs["sync/atomic.Swap"+w] = atomicSwap
+		if w != "Uint32" {
+			stubs["sync/atomic.Load"+w] = stubs["sync/atomic.LoadUint32"]
+			stubs["sync/atomic.Store"+w] = stubs["sync/atomic.StoreUint32"]
+			stubs["sync/atomic.CompareAndSwap"+w] = stubs["sync/atomic.CompareAndSwapUint32"]
+		}
+	}
+
 }
 
 // fmtOperands models what fmt does with its operands: it calls Error()/String()
